@@ -40,6 +40,9 @@ Proof.
   apply negb_false_iff in H1. rewrite H1. f_equal. apply IH. exact H2.
 Qed.
 
+Lemma existsb_ext' {A} (p q : A -> bool) l : (forall x, p x = q x) -> existsb p l = existsb q l.
+Proof. intros H. induction l as [|x l IH]; simpl; [reflexivity|]. rewrite H, IH. reflexivity. Qed.
+
 Lemma keys_disjoint_filter p la lb : keys_disjoint la lb = true -> keys_disjoint (filter p la) lb = true.
 Proof.
   unfold keys_disjoint. induction la as [|a la IH]; simpl; [reflexivity|].
@@ -59,7 +62,7 @@ Proof.
     rewrite !filter_app.
     rewrite (filter_none (same_key (sel_key s)) lb Hs), app_nil_r.
     rewrite (filter_all (fun x => negb (same_key (sel_key s) x)) lb).
-    2:{ erewrite existsb_ext; [exact Hs|]. intros x. apply negb_involutive. }
+    2:{ rewrite <- Hs. apply existsb_ext'. intros x. apply negb_involutive. }
     cbn [app]. f_equal.
     apply IH.
     + pose proof (filter_length_le (fun x => negb (same_key (sel_key s) x)) la). simpl in Hlen. lia.
@@ -84,7 +87,7 @@ Section Split.
   Proof.
     induction f as [|f IH]; intros objty A B l H; [rewrite flatten_0 in H; discriminate|].
     destruct A as [|s A].
-    - exists [], l. cbn [app] in H. repeat split; [|exact H]. reflexivity.
+    - exists [], l. cbn [app] in H. split; [reflexivity|split; [exact H|reflexivity]].
     - cbn [app] in H. rewrite flatten_S_cons in H. rewrite flatten_S_cons.
       destruct (flat_here sc frags vars (flatten' f objty) objty s) as [l1|e]; [|discriminate].
       cbn [flat_seq] in *.
